@@ -45,7 +45,7 @@ type Candidate struct {
 	Auto     bool
 	Disabled bool
 	LoopID   int
-	Eval     func(fr *Frame, st *State, phi map[*ssa.Phi]Value) (Term, error)
+	Eval     func(fr *Frame, st *State, phi map[*ssa.Phi]Value, hyp bool) (Term, error)
 }
 
 type Unit struct {
@@ -73,6 +73,7 @@ type Unit struct {
 	qctr    int
 	placedInv map[string]bool
 	unfolded map[string]bool
+	forcedKey *Value
 	mu      sync.Mutex
 }
 
@@ -548,7 +549,7 @@ func (fr *Frame) cutLoop(li *loopInfo, st *State, pc Term, phiEntry map[*ssa.Phi
 	// 3. inv-init obligations under entry state
 	if u.discov == 0 {
 		for _, cd := range li.cands {
-			t, err := cd.Eval(fr, st, phiEntry)
+			t, err := cd.Eval(fr, st, phiEntry, false)
 			if err != nil {
 				if !cd.Auto {
 					u.unsupportedf("invariant %q at loop %d of %s: %v", cd.Text, li.id, fr.fn.Name(), err)
@@ -627,7 +628,7 @@ func (fr *Frame) cutLoop(li *loopInfo, st *State, pc Term, phiEntry map[*ssa.Phi
 			if cd.Disabled {
 				continue
 			}
-			t, err := cd.Eval(fr, nst, nil)
+			t, err := cd.Eval(fr, nst, nil, true)
 			if err != nil {
 				cd.Disabled = true
 				continue
@@ -635,7 +636,132 @@ func (fr *Frame) cutLoop(li *loopInfo, st *State, pc Term, phiEntry map[*ssa.Phi
 			u.c.Assume(Imp(Term{cd.Flag, SBool}, Imp(pc, t)))
 		}
 	}
+	if u.discov == 0 && fr.parent == nil && u.spec != nil && u.spec.Opts["order-indep"] == "check" {
+		fr.orderIndependence(li, nst, pc)
+	}
 	return nst, pc
+}
+
+// orderIndependence generates, for a range loop over a map, the obligation that two iterations
+// commute: from an arbitrary loop state (the invariants hold), running the body for two distinct
+// unvisited keys k1, k2 in either order never leaves the loop early and ends in the same state. Together
+// with the fact that every key is visited exactly once this makes the loop's effect independent of Go's
+// randomised map iteration order (DESIGN.md section 3.6).
+func (fr *Frame) orderIndependence(li *loopInfo, st *State, pc Term) {
+	u := fr.u
+	// find the Next instruction of this loop's map iteration
+	var next *ssa.Next
+	for _, ins := range li.header.Instrs {
+		if n, ok := ins.(*ssa.Next); ok && !n.IsString {
+			next = n
+		}
+	}
+	if next == nil {
+		return
+	}
+	it, ok := fr.val(next.Iter).(IterV)
+	if !ok || it.Kind != "map" {
+		return
+	}
+	mt := it.T.(*types.Map)
+	k1 := u.m.FreshValue(st, "oi_k1", mt.Key())
+	k2 := u.m.FreshValue(st, "oi_k2", mt.Key())
+	t1, t2 := u.mapKeyTerm(mt, k1), u.mapKeyTerm(mt, k2)
+	dom := u.mapDom(st, mt, it.M)
+	visited := st.ghost[it.Key]
+	premise := And(pc, Ne(it.M, IntLit(0)), Ne(t1, t2), Select(dom, t1), Select(dom, t2), Not(Select(visited, t1)), Not(Select(visited, t2)))
+	phis := map[*ssa.Phi]Value{}
+	for _, ins := range li.header.Instrs {
+		if p, ok := ins.(*ssa.Phi); ok {
+			phis[p] = fr.env[p]
+		}
+	}
+	type bodyRes struct {
+		st   *State
+		phis map[*ssa.Phi]Value
+		cont Term
+	}
+	runBody := func(s0 *State, p0 map[*ssa.Phi]Value, key Value, pc0 Term) *bodyRes {
+		sub := fr.cloneForDiscovery()
+		u.forcedKey = &key
+		u.discov++ // obligations inside the body are generated by the normal run, not here
+		sub.run(li.blocks, li.header, s0, pc0, p0, true)
+		u.discov--
+		u.forcedKey = nil
+		var sts []*State
+		var conds []Term
+		var srcs []*ssa.BasicBlock
+		for _, b := range li.backs {
+			es, ok := sub.exitSt[b]
+			if !ok {
+				continue
+			}
+			sts = append(sts, es)
+			conds = append(conds, u.c.Def("oi_back", And(sub.exitPc[b], sub.edgeCond(b, li.header))))
+			srcs = append(srcs, b)
+		}
+		if len(sts) == 0 {
+			return nil
+		}
+		res := &bodyRes{st: u.m.mergeStates(sts, conds), phis: map[*ssa.Phi]Value{}, cont: u.c.Def("oi_cont", Or(conds...))}
+		for p := range p0 {
+			var cur Value
+			for i := len(srcs) - 1; i >= 0; i-- {
+				v := sub.val(p.Edges[predIndex(li.header, srcs[i])])
+				if cur == nil {
+					cur = v
+				} else {
+					cur, _ = u.m.mergeValues(conds[i], v, cur, p.Type())
+				}
+			}
+			res.phis[p] = cur
+		}
+		return res
+	}
+	a1 := runBody(st, phis, k1, premise)
+	b1 := runBody(st, phis, k2, premise)
+	if a1 == nil || b1 == nil {
+		return
+	}
+	a2 := runBody(a1.st, a1.phis, k2, And(premise, a1.cont))
+	b2 := runBody(b1.st, b1.phis, k1, And(premise, b1.cont))
+	if a2 == nil || b2 == nil {
+		return
+	}
+	pos := li.header.Instrs[0].Pos()
+	if !pos.IsValid() {
+		pos = next.Pos()
+	}
+	u.oblige(fr, "order-indep", pos, "no iteration leaves the loop early (the exit would depend on the iteration order)", premise,
+		And(a1.cont, b1.cont, Imp(a1.cont, a2.cont), Imp(b1.cont, b2.cont)))
+	var eqs []Term
+	keys := map[string]bool{}
+	for k := range a2.st.heap {
+		keys[k] = true
+	}
+	for k := range b2.st.heap {
+		keys[k] = true
+	}
+	var ks []string
+	for k := range keys {
+		ks = append(ks, k)
+	}
+	sort.Strings(ks)
+	for _, k := range ks {
+		x, okx := a2.st.heap[k]
+		y, oky := b2.st.heap[k]
+		if okx && oky && x.S != y.S {
+			eqs = append(eqs, Eq(x, y))
+		}
+	}
+	for p := range phis {
+		ta := u.m.flatten(p.Type(), a2.phis[p])
+		tb := u.m.flatten(p.Type(), b2.phis[p])
+		for i := range ta {
+			eqs = append(eqs, Eq(ta[i], tb[i]))
+		}
+	}
+	u.oblige(fr, "order-indep", pos, "two iterations commute: the state after k1;k2 equals the state after k2;k1", And(premise, a1.cont, a2.cont, b1.cont, b2.cont), And(eqs...))
 }
 
 func (fr *Frame) checkBackEdge(li *loopInfo, from *ssa.BasicBlock, st *State, pc Term) {
@@ -656,7 +782,7 @@ func (fr *Frame) checkBackEdge(li *loopInfo, from *ssa.BasicBlock, st *State, pc
 		if cd.Disabled {
 			continue
 		}
-		t, err := cd.Eval(fr, st, phi)
+		t, err := cd.Eval(fr, st, phi, false)
 		if err != nil {
 			if !cd.Auto {
 				u.unsupportedf("invariant %q (step) at loop %d of %s: %v", cd.Text, li.id, fr.fn.Name(), err)
